@@ -9,7 +9,7 @@
 
    The full-strength statement of the property is still FALSE of the current code in places.  It is kept visible
    below ([fit_pure_full], [unfitted_raises_full_biv], [def_before_use_full]) next to its refutation with a concrete
-   witness (each witness is replayed on the real library by the check: findings F7, F8, F9b, F22, F23, F25, F26, F29,
+   witness (each witness is replayed on the real library by the check: findings F7, F8, F9b, F22, F23, F26, F29,
    F30) and next to the strongest statement that does hold.
    History: F5 (constant overrides never cleared), F6 (TruncatedGaussian remembered data-derived bounds), F12
    (GaussianKDE.log_probability_density raised) and F24 (<Subclass>.from_dict) were reported by this check and are
@@ -284,20 +284,20 @@ Proof. exact unfitted_raises_biv. Qed.
 (* the full statement for the bivariate classes ... *)
 Definition unfitted_raises_full_biv : Prop :=
   forall t rs k n g, t <> Independence ->
-    snd (query_biv (mkB (Some t) JNone JNone rs true) k n g) = ObsErr NotFitted /\
-    to_dict_biv (mkB (Some t) JNone JNone rs true) = Err NotFitted.
-(* ... is REFUTED twice: sample() compares tau = None with 1 (TypeError, F23), to_dict() never checks (F25) *)
+    snd (query_biv (mkB (Some t) JNone JNone rs true) k n g) = ObsErr NotFitted.
+(* ... is REFUTED: sample() compares tau = None with 1 (TypeError, F23).  to_dict() is not a query: it serialises the unfitted
+   copula (theta = tau = None), which C14 requires to round-trip to an unfitted copula (C14_unfitted_biv_roundtrip) *)
 Theorem C19_unfitted_biv_sample_refuted : forall t rs n g,
     query_biv (mkB (Some t) JNone JNone rs true) BSample n g
     = (mkB (Some t) JNone JNone rs true, g, ObsErr TypeErr).
 Proof. exact unfitted_biv_sample_refuted. Qed.
-Theorem C19_unfitted_biv_to_dict_refuted : forall t rs i,
+Theorem C19_unfitted_biv_to_dict_serialises : forall t rs i,
     to_dict_biv (mkB (Some t) JNone JNone rs i)
     = Ok (JDict [("copula_type", JStr (ctype_NAME t)); ("theta", JNone); ("tau", JNone)]).
 Proof. exact unfitted_biv_to_dict_refuted. Qed.
 Theorem C19_unfitted_raises_full_biv_refuted : ~ unfitted_raises_full_biv.
 Proof.
-  intros H. destruct (H Clayton None BSample 1%nat [] ltac:(discriminate)) as [H1 _].
+  intros H. pose proof (H Clayton None BSample 1%nat [] ltac:(discriminate)) as H1.
   rewrite unfitted_biv_sample_refuted in H1. discriminate H1.
 Qed.
 (* with theta = 0 (Clayton fitted on tau = 0 data, F14a) sample() does raise NotFittedError -- after consuming the generator *)
@@ -430,7 +430,7 @@ Theorem C19_check_fit_first :
    ("Univariate", "probability_density"); ("Univariate", "sample"); ("Univariate", "to_dict")].
 Proof. vm_compute. reflexivity. Qed.
 (* ... and those that do not: the log-densities delegate to a guarded method; Bivariate.sample / to_dict are the
-   refuted cases above (F23, F25); VineCopula.sample raises AttributeError when unfitted (F30); VineCopula.to_dict of
+   refuted case above (F23); VineCopula.sample raises AttributeError when unfitted (F30); VineCopula.to_dict of
    an unfitted vine returns {type, vine_type, fitted: False} by design; Tree/Edge.to_dict are helpers *)
 Theorem C19_no_check_fit_first :
   no_check_fit_first =
